@@ -52,7 +52,7 @@ public:
   noexcept
   {
     auto lock = get_lock();
-    trompeloeil_lifetime_monitor = monitor;
+    ignore(monitor); // linked in by the monitor itself, several may coexist
     return trompeloeil_lifetime_monitor.leak();
   }
 private:
@@ -75,6 +75,10 @@ struct lifetime_monitor : public expectation
       , invocation_name(invocation_name_)
       , call_name(call_name_)
   {
+    auto lock = get_lock();
+    auto pp = &object_monitor;
+    while (*pp) pp = &(*pp)->next_monitor;
+    *pp = this;
   }
 
   bool is_satisfied() const noexcept override
@@ -97,7 +101,11 @@ struct lifetime_monitor : public expectation
       std::ostringstream os;
       os << "Object " << object_name << " is still alive";
       send_report<specialized>(severity::nonfatal, loc, os.str());
-      object_monitor = nullptr; // prevent its death poking this cadaver
+      // prevent its death poking this cadaver
+      for (auto pp = &object_monitor; *pp; pp = &(*pp)->next_monitor)
+      {
+        if (*pp == this) { *pp = next_monitor; break; }
+      }
     }
   }
 
@@ -130,8 +138,11 @@ struct lifetime_monitor : public expectation
     sequences = std::move(seq);
   }
 private:
+  template <typename T>
+  friend class deathwatched;
   atomic<bool>       died{false};
   lifetime_monitor *&object_monitor;
+  lifetime_monitor  *next_monitor = nullptr;
   location           loc;
   char const        *object_name;
   char const        *invocation_name;
@@ -145,7 +156,10 @@ deathwatched<T>::~deathwatched()
   auto lock = get_lock();
   if (trompeloeil_lifetime_monitor)
   {
-    trompeloeil_lifetime_monitor->notify();
+    for (auto m = trompeloeil_lifetime_monitor.leak(); m; m = m->next_monitor)
+    {
+      m->notify();
+    }
     return;
   }
   std::ostringstream os;
